@@ -225,4 +225,44 @@ def hasDirectTypename : List Selection → Bool
   | .field _ n _ _ _ :: ss => n == ResultTypes.typenameField || hasDirectTypename ss
   | _ :: ss => hasDirectTypename ss
 
+
+/-! ### undoing the two documented rewrites (specification side) -/
+
+/-- a plain `__typename` field: no alias, no directives, no selection set -/
+def isTn : Selection → Bool
+  | .field none n [] _ [] => n == ResultTypes.typenameField
+  | _ => false
+
+mutual
+  /-- remove the one leading automatic `__typename` of every marked selection set -/
+  def undoSel (marks : List Nat) : Selection → Selection
+    | .field a n d sid sub => .field a n d sid (undoSet marks sid sub)
+    | .spread n d => .spread n d
+    | .inline on d sid sub => .inline on d sid (undoSet marks sid sub)
+  def undoSet (marks : List Nat) (sid : Nat) : List Selection → List Selection
+    | [] => []
+    | t :: rest => if marks.contains sid && isTn t then undoSels marks rest else undoSel marks t :: undoSels marks rest
+  def undoSels (marks : List Nat) : List Selection → List Selection
+    | [] => []
+    | s :: ss => undoSel marks s :: undoSels marks ss
+end
+
+mutual
+  /-- the authored selection without the codegen-only `@mixin` directive, wherever it stands -/
+  def stripAllSel : Selection → Selection
+    | .field a n dirs sid sub => .field a n (dirs.filter (!isMixin ·)) sid (stripAllSels sub)
+    | .spread n d => .spread n (d.filter (!isMixin ·))
+    | .inline on d sid sub => .inline on (d.filter (!isMixin ·)) sid (stripAllSels sub)
+  def stripAllSels : List Selection → List Selection
+    | [] => []
+    | s :: ss => stripAllSel s :: stripAllSels ss
+end
+
+/-- the authored operation / fragment definition as the server is meant to see it -/
+def expectedOp (o : Operation) : Operation := { o with dirs := o.dirs.filter (!isMixin ·), sel := stripAllSels o.sel }
+def expectedFrag (f : Fragment) : Fragment := { f with dirs := f.dirs.filter (!isMixin ·), sel := stripAllSels f.sel }
+
+def undoOp (marks : List Nat) (o : Operation) : Operation := { o with sel := undoSet marks o.sid o.sel }
+def undoFrag (marks : List Nat) (f : Fragment) : Fragment := { f with sel := undoSet marks f.sid f.sel }
+
 end Ariadne.OpText
